@@ -8,14 +8,17 @@ import (
 	"encoding/json"
 	"flag"
 	"fmt"
+	"io"
 	"os"
 	"path/filepath"
 	"sort"
 
+	"github.com/sirupsen/logrus"
 	"verif.local/tools/internal/hx"
 )
 
 func main() {
+	logrus.SetOutput(io.Discard) // the library logs warnings on the inputs the streams generate on purpose
 	stream := flag.String("stream", "nl", "stream name")
 	tier := flag.String("tier", "quick", "quick | thorough")
 	seed := flag.Int64("seed", 1, "PRNG seed")
